@@ -585,7 +585,28 @@ func ruleTAB2(w *World) []Ob {
 			if !isC || c.Common().StaticCallee() == nil || fname(c.Common().StaticCallee()) != "IsSymbol" {
 				return
 			}
-			if sl, isS := c.Common().Args[0].(*ssa.Slice); isS {
+			arg := c.Common().Args[0]
+			// string(l[0:1]) for a []byte line, string(l[0]) likewise
+			for {
+				if cv, isCv := arg.(*ssa.Convert); isCv {
+					arg = cv.X
+					continue
+				}
+				break
+			}
+			if ld, isL := isLoad(arg); isL {
+				if ia, isIA := ld.(*ssa.IndexAddr); isIA {
+					if k, isK := constInt(ia.Index); isK && k == 0 {
+						ok = true
+					}
+				}
+			}
+			if ix, isIx := arg.(*ssa.Index); isIx {
+				if k, isK := constInt(ix.Index); isK && k == 0 {
+					ok = true
+				}
+			}
+			if sl, isS := arg.(*ssa.Slice); isS {
 				lo, hi := int64(0), int64(-1)
 				if sl.Low != nil {
 					lo, _ = constInt(sl.Low)
@@ -981,7 +1002,52 @@ func ruleTAB4(w *World) []Ob {
 	} else {
 		l.ok(p.FuncID(fn), "verdict = (strict ∧ extra≠∅) ∨ missing≠∅", p.Pos(fn.Pos()), "all 8 rows of the truth table agree", true, "verdict")
 	}
-	// the error carries the lists it was given
+	// the error carries the lists it was given — as they are, or reordered / copied (never filtered) by a helper
+	var permOf func(v, src ssa.Value, d int) bool
+	permOf = func(v, src ssa.Value, d int) bool {
+		if d > 4 {
+			return false
+		}
+		if sameVar(v, src) {
+			return true
+		}
+		c, ok := resolve(v).(*ssa.Call)
+		if !ok {
+			return false
+		}
+		name := calleeFullName(c.Common())
+		if f := c.Common().StaticCallee(); f != nil && f.Origin() != nil {
+			name = f.Origin().String()
+		}
+		switch name {
+		case "slices.Clone", "slices.Sorted", "slices.Values", "slices.Collect", "slices.SortedFunc", "slices.SortedStableFunc":
+			return len(c.Common().Args) > 0 && permOf(c.Common().Args[0], src, d+1)
+		}
+		h := c.Common().StaticCallee()
+		if h == nil || !p.InModule(h) || len(h.Blocks) == 0 {
+			return false
+		}
+		args := callArgs(c.Common())
+		idx := -1
+		for i, a := range args {
+			if sameVar(a, src) {
+				idx = i
+			}
+		}
+		if idx < 0 || idx >= len(h.Params) {
+			return false
+		}
+		all, n := true, 0
+		allInstrs(h, func(in ssa.Instruction) {
+			if r, ok := in.(*ssa.Return); ok && len(rr(r)) == 1 {
+				n++
+				if !permOf(rr(r)[0], h.Params[idx], d+1) {
+					all = false
+				}
+			}
+		})
+		return all && n > 0
+	}
 	carries := map[string]bool{}
 	allInstrs(fn, func(in ssa.Instruction) {
 		st, ok := in.(*ssa.Store)
@@ -991,9 +1057,9 @@ func ruleTAB4(w *World) []Ob {
 		if fa, ok := st.Addr.(*ssa.FieldAddr); ok {
 			_, f, _ := fieldOf(fa)
 			switch {
-			case sameVar(st.Val, slices[0]):
+			case permOf(st.Val, slices[0], 0):
 				carries["extra→"+f] = true
-			case sameVar(st.Val, slices[1]):
+			case permOf(st.Val, slices[1], 0):
 				carries["missing→"+f] = true
 			}
 		}
@@ -1440,7 +1506,8 @@ func ruleTAB6(w *World) []Ob {
 					case "intermedialNodeFormat":
 						okSrc = len(sameType) == 2 && sameType[1] == prm
 					case "enabledValidation":
-						okSrc = len(sameType) == 1
+						// the first bool parameter (further flags of new options may follow it)
+						okSrc = len(sameType) >= 1 && sameType[0] == prm
 					}
 				}
 				if f == "enabledValidation" {
@@ -1567,6 +1634,13 @@ func tab6Encoders(w *World, l *obs) {
 				dflt = what
 			}
 		})
+		// table form: the constant is looked up in a package-level map from constants to constructors (here or in a
+		// helper that is handed the parameter), and the found side builds something else than the default side
+		if len(got) == 0 {
+			for k, ctor := range encodeTableLookup(p, fn) {
+				got[k] = encoderPackageOf(p, ctor)
+			}
+		}
 		want := map[string]string{"JSON": "encoding/json", "YAML": "gopkg.in/yaml.v3", "TOML": "github.com/pelletier/go-toml/v2"}
 		var problems []string
 		for f, k := range optConst {
@@ -1584,6 +1658,107 @@ func tab6Encoders(w *World, l *obs) {
 			l.ok(p.FuncID(fn), "format selection", p.Pos(fn.Pos()), "JSON/YAML/TOML constants select constructors whose encode factory calls the matching package's NewEncoder; anything else the text spreader", true, "encode")
 		}
 	}
+}
+
+// encodeTableLookup: fn (or a module helper it hands its first parameter to) looks that parameter up, comma-ok, in a
+// package-level map whose entries are filled in the package initialiser with constant keys and function values; a
+// return of fn lies on the found side.  Returns key → constructor.
+func encodeTableLookup(p *Prog, fn *ssa.Function) map[int64]*ssa.Function {
+	if len(fn.Params) == 0 {
+		return nil
+	}
+	var lookIn func(f *ssa.Function, prm ssa.Value, depth int) (*ssa.Global, ssa.Value)
+	lookIn = func(f *ssa.Function, prm ssa.Value, depth int) (*ssa.Global, ssa.Value) {
+		var g *ssa.Global
+		var okv ssa.Value
+		allInstrs(f, func(in ssa.Instruction) {
+			switch x := in.(type) {
+			case *ssa.Lookup:
+				if !x.CommaOk || !sameVar(x.Index, prm) {
+					return
+				}
+				if ld, isL := isLoad(stripConv(x.X)); isL {
+					if gl, isG := ld.(*ssa.Global); isG {
+						g = gl
+						okv = siblingExtract2(x, 1)
+					}
+				}
+			case *ssa.Call:
+				if depth > 0 || g != nil {
+					return
+				}
+				callee := x.Common().StaticCallee()
+				if callee == nil || !p.InModule(callee) || len(callee.Blocks) == 0 {
+					return
+				}
+				for i, a := range x.Common().Args {
+					if sameVar(a, prm) && i < len(callee.Params) {
+						if g2, _ := lookIn(callee, callee.Params[i], depth+1); g2 != nil {
+							g = g2
+							// the helper's second result is the found flag
+							okv = siblingExtract(x, 1)
+						}
+					}
+				}
+			}
+		})
+		return g, okv
+	}
+	g, okv := lookIn(fn, fn.Params[0], 0)
+	if g == nil || okv == nil {
+		return nil
+	}
+	// a return on the found side
+	found := false
+	allInstrs(fn, func(in ssa.Instruction) {
+		if r, ok := in.(*ssa.Return); ok {
+			for _, gd := range guardsOf(r.Block()) {
+				c, pol := flattenCond(gd.Cond, gd.Pol)
+				if pol && c == okv {
+					found = true
+				}
+			}
+		}
+	})
+	if !found {
+		return nil
+	}
+	out := map[int64]*ssa.Function{}
+	pkg := g.Pkg
+	if pkg == nil {
+		return nil
+	}
+	initf := pkg.Func("init")
+	if initf == nil {
+		return nil
+	}
+	allInstrs(initf, func(in ssa.Instruction) {
+		st, ok := in.(*ssa.Store)
+		if !ok || st.Addr != ssa.Value(g) {
+			return
+		}
+		mm, ok := st.Val.(*ssa.MakeMap)
+		if !ok || mm.Referrers() == nil {
+			return
+		}
+		for _, r := range *mm.Referrers() {
+			mu, ok := r.(*ssa.MapUpdate)
+			if !ok {
+				continue
+			}
+			k, isC := constInt(mu.Key)
+			if !isC {
+				continue
+			}
+			switch v := resolve(mu.Value).(type) {
+			case *ssa.Function:
+				out[k] = v
+			case *ssa.MakeClosure:
+				out[k] = v.Fn.(*ssa.Function)
+			}
+		}
+	})
+	return out
 }
 
 // encoderPackageOf: the package whose NewEncoder the constructor's encode closure calls.
@@ -1868,6 +2043,49 @@ func ruleTAB7(w *World) []Ob {
 								if cc, ok := b.X.(*ssa.Call); ok && calleeFullName(cc.Common()) == "(*github.com/urfave/cli/v2.Context).Duration" {
 									okFlag = true
 								}
+								// the duration is handed to a helper: every call site passes c.Duration(...)
+								if prm, isP := b.X.(*ssa.Parameter); isP && prm.Parent() == fn && fn.Parent() == nil {
+									i := paramIndex(fn, prm)
+									callers := p.Callers(fn)
+									all := len(callers) > 0
+									for _, ci := range callers {
+										args := callArgs(ci.Common())
+										if i < 0 || i >= len(args) {
+											all = false
+											continue
+										}
+										cc, isC := resolve(args[i]).(*ssa.Call)
+										if !isC || calleeFullName(cc.Common()) != "(*github.com/urfave/cli/v2.Context).Duration" {
+											all = false
+										}
+									}
+									if all {
+										okFlag = true
+									}
+								}
+							}
+						}
+					}
+					// the flag's value is handed to a helper as a bool parameter: the guard is that parameter and every
+					// call site passes c.Bool(flag) for it
+					if !okFlag && fn.Parent() == nil {
+						for _, g := range guardsOf(c.Block()) {
+							cd, pol := flattenCond(g.Cond, g.Pol)
+							prm, isP := cd.(*ssa.Parameter)
+							if !isP || !pol || prm.Parent() != fn {
+								continue
+							}
+							i := paramIndex(fn, prm)
+							callers := p.Callers(fn)
+							all := len(callers) > 0
+							for _, ci := range callers {
+								args := callArgs(ci.Common())
+								if i < 0 || i >= len(args) || !isCLIFlagBool(resolve(args[i]), wr.flag) {
+									all = false
+								}
+							}
+							if all {
+								okFlag = true
 							}
 						}
 					}
@@ -1905,6 +2123,119 @@ func ruleTAB7(w *World) []Ob {
 		}
 		if found == 0 {
 			l.bad("cmd/gtree", "--"+wr.flag+" → "+wr.option, "-", "no call of gtree."+wr.option+" on the output/mkdir/verify routes: the flag has no effect", "wire")
+		}
+	}
+	// --target-dir is the library's business: the command line hands the value over and does not probe the filesystem
+	// with it (a target that does not exist yet is created by Mkdir; Verify reports what is missing)
+	{
+		nProbe := 0
+		for fn := range set {
+			if p.PkgPath(fn) != cliPkgPath {
+				continue
+			}
+			fn := fn
+			var flagCalls []ssa.Value
+			allInstrs(fn, func(in ssa.Instruction) {
+				if c, ok := in.(*ssa.Call); ok {
+					switch calleeFullName(c.Common()) {
+					case "(*github.com/urfave/cli/v2.Context).String", "(*github.com/urfave/cli/v2.Context).Path":
+						if s, isS := constString(c.Common().Args[1]); isS && s == "target-dir" {
+							flagCalls = append(flagCalls, c)
+						}
+					}
+				}
+			})
+			allInstrs(fn, func(in ssa.Instruction) {
+				ci, ok := in.(ssa.CallInstruction)
+				if !ok {
+					return
+				}
+				f := ci.Common().StaticCallee()
+				if f == nil || p.InModule(f) {
+					return
+				}
+				if e := classifyExternal(f); e != EffFSRead && e != EffFSMutate {
+					return
+				}
+				for _, a := range ci.Common().Args {
+					from := false
+					for _, fc := range flagCalls {
+						if dependsOnValue(a, fc, 0) {
+							from = true
+						}
+					}
+					if !from {
+						for _, r := range resolveArgAll(p, a, 0) {
+							if c, isC := r.(*ssa.Call); isC {
+								switch calleeFullName(c.Common()) {
+								case "(*github.com/urfave/cli/v2.Context).String", "(*github.com/urfave/cli/v2.Context).Path":
+									if s, isS := constString(c.Common().Args[1]); isS && s == "target-dir" {
+										from = true
+									}
+								}
+							}
+						}
+					}
+					if from {
+						nProbe++
+						l.bad(p.FuncID(fn), "--target-dir is handed to the library unprobed", p.InstrPos(in), "the command line calls "+f.String()+" on the --target-dir value: the command then succeeds or fails by a filesystem test of its own and no longer has the library's effect for that target (the library creates a missing target; a missing target is a verification result, not a usage error)", "wire")
+						return
+					}
+				}
+			})
+		}
+		if nProbe == 0 {
+			l.ok("cmd/gtree", "--target-dir is handed to the library unprobed", "-", "no filesystem call of the command line takes the --target-dir value", true, "wire")
+		}
+	}
+	// --massive-timeout: the deadline is applied whenever the flag is given, also together with --massive
+	{
+		nTimeout := 0
+		hasFlag := false
+		for fn := range set {
+			if p.PkgPath(fn) != cliPkgPath {
+				continue
+			}
+			allInstrs(fn, func(in ssa.Instruction) {
+				c, ok := in.(*ssa.Call)
+				if !ok {
+					return
+				}
+				if calleeFullName(c.Common()) == "(*github.com/urfave/cli/v2.Context).Duration" {
+					if s, isS := constString(c.Common().Args[1]); isS && s == "massive-timeout" {
+						hasFlag = true
+					}
+				}
+				name := calleeFullName(c.Common())
+				if name != "context.WithTimeout" && name != "context.WithDeadline" {
+					return
+				}
+				nTimeout++
+				construct := "--massive-timeout → " + strings.TrimPrefix(name, "context.")
+				bad := ""
+				check := func(b *ssa.BasicBlock) {
+					for _, g := range guardsOf(b) {
+						cd, pol := flattenCond(g.Cond, g.Pol)
+						if !pol && isCLIFlagBool(cd, "massive") {
+							bad = "the deadline is set up only when --massive is absent: `--massive --massive-timeout d` runs without the timeout the user asked for"
+						}
+					}
+				}
+				check(c.Block())
+				if bad == "" && fn.Parent() == nil {
+					for _, ci := range p.Callers(fn) {
+						check(ci.(ssa.Instruction).Block())
+					}
+				}
+				if bad != "" {
+					l.bad(p.FuncID(fn), construct, p.InstrPos(c), bad, "wire")
+				} else {
+					l.ok(p.FuncID(fn), construct, p.InstrPos(c), "not conditional on --massive being absent", true, "wire")
+				}
+			})
+		}
+		if hasFlag && nTimeout == 0 {
+			l.bad("cmd/gtree", "--massive-timeout → WithTimeout", "-", "the flag is read but no context with a deadline is derived on the command routes: the timeout has no effect", "wire")
 		}
 	}
 	// --format
@@ -2014,6 +2345,20 @@ func ruleTAB7(w *World) []Ob {
 									name = v.Sel.Name
 								case *ast.Ident:
 									name = v.Name
+								case *ast.FuncLit:
+									// func() gtree.Option { return nil }
+									if len(v.Body.List) == 1 {
+										if rs, ok := v.Body.List[0].(*ast.ReturnStmt); ok && len(rs.Results) == 1 {
+											if id, ok := rs.Results[0].(*ast.Ident); ok && id.Name == "nil" {
+												name = "nil"
+											}
+											if ce, ok := rs.Results[0].(*ast.CallExpr); ok {
+												if se, ok := ce.Fun.(*ast.SelectorExpr); ok {
+													name = se.Sel.Name
+												}
+											}
+										}
+									}
 								}
 								got[constant.StringVal(tv.Value)] = name
 							}
